@@ -128,11 +128,17 @@ def main():
     root, outdir = sys.argv[1], sys.argv[2]
     cap = int(sys.argv[3]) if len(sys.argv) > 3 else 60
     os.makedirs(outdir, exist_ok=True)
-    rng = random.Random(20260928)
+    rng = random.Random(int(os.environ.get('MUT_SEED', '20260928')))
+    skip = set()
+    if os.environ.get('MUT_SKIP'):
+        skip = {(m['file'], m['line'], m['after']) for m in json.load(open(os.environ['MUT_SKIP']))}
+    only = os.environ.get('MUT_FILES')
     index = []
     for rel in FILES:
+        if only and rel not in only.split(','):
+            continue
         src = open(os.path.join(root, rel)).read()
-        ms = mutants_of(src)
+        ms = [m for m in mutants_of(src) if (rel, m[0], m[4]) not in skip]
         rng.shuffle(ms)
         # spread over functions: at most 4 mutants per function, `cap` per file
         per = {}
